@@ -94,6 +94,14 @@ package object
 //@ requires[C12.ctx] ctx != nil && hasos(ctx)
 //@ modcomps H_ E_ M G_ C_
 
+// C10 / C12: the goroutine of a thread calls the callable with exactly the context NewThread was given - not a
+// derived context that is cancelled when this call returns (threads and channel operations started by the call
+// inherit it and would be cut off: seed C10e) and not a fresh one (the host OS travels in it).
+//@ func NewThread$1
+//@ props C10 C12
+//@ trusted callpre
+//@ callpre[thread.ctx] Call: arg0 == cap_ctx && len(arg1) == len(cap_args)
+
 // Fresh contexts in package object: only the Interface() methods of iterators (they drain an already opened
 // iterator; no OS lookup happens under them).
 //@ scan[C12.freshctx.object] C12 extcalls context.Background,context.TODO: (*FileIter).Interface (*IntIter).Interface (*ListIter).Interface (*MapIter).Interface (*SetIter).Interface (*SliceIter).Interface
